@@ -76,23 +76,18 @@ theorem aten_sub_alpha_agrees (a b alpha : Int) : subAlpha a b alpha = specSub a
   · next h => subst h; omega
   · rw [Int.mul_comm]
 
-/-- `aten_add` on bool tensors (`Or`, or `Identity` when `alpha == 0`): `self | (alpha & other)` element-wise. -/
+/-- `aten_add` on bool tensors (`Or(self, other)`, with `other & False` when `alpha == 0`): `self | (alpha & other)` element-wise. -/
 theorem aten_add_bool_agrees (x y alpha : Bool) : addsub.boolModel x y alpha = addsub.boolSpec x y alpha := by
   cases x <;> cases y <;> cases alpha <;> rfl
 
-/-- … but the `Identity` shortcut forgets the broadcast: FINDING C08-add-bool-alpha0-broadcast. -/
-theorem aten_add_bool_alpha0_broadcast_refuted :
-    addsub.model true .bool [3] [2, 3] 0 = some [3] ∧ addsub.spec [3] [2, 3] = some [2, 3] := by decide
+/-- FIXED a26d309 (was C08-add-bool-alpha0-broadcast): `add(bool[3], bool[2,3], alpha=0)` keeps the broadcast shape `[2,3]`
+(the `Identity` shortcut returned `[3]`). -/
+theorem aten_add_bool_alpha0_broadcast_fixed :
+    addsub.model true .bool [3] [2, 3] 0 = some [2, 3] ∧ addsub.spec [3] [2, 3] = some [2, 3] := by decide
 
-/-- `aten_add / aten_sub` output shape: outside that corner the emitted `Add/Sub/Or` broadcasts exactly like PyTorch. -/
-theorem aten_addsub_shape_agrees_partial (isAdd : Bool) (dc : DC) (a b : Shape) (alpha2 : Int)
-    (h : ¬ (isAdd = true ∧ dc = .bool ∧ alpha2 = 0)) : addsub.model isAdd dc a b alpha2 = addsub.spec a b := by
-  unfold addsub.model addsub.spec
-  have : ¬ ((isAdd && dc == .bool && decide (alpha2 = 0)) = true) := by
-    intro hh
-    simp only [Bool.and_eq_true, beq_iff_eq, decide_eq_true_eq] at hh
-    exact h ⟨hh.1.1, hh.1.2, hh.2⟩
-  simp only [this, Bool.false_eq_true, if_false]
+/-- `aten_add / aten_sub` (.Tensor / .Scalar, every dtype class and alpha): the emitted `Add/Sub/Or` broadcasts exactly like PyTorch. -/
+theorem aten_addsub_shape_agrees (isAdd : Bool) (dc : DC) (a b : Shape) (alpha2 : Int) :
+    addsub.model isAdd dc a b alpha2 = addsub.spec a b := rfl
 
 /-- `aten_clamp_tensor` / `aten_clamp`: `Max` with the lower bound first, then `Min` with the upper bound, is
 `torch.clamp` for every value and every combination of omitted bounds — including `min > max`, where PyTorch sets every
@@ -613,14 +608,16 @@ theorem aten_max_pool_agrees (k : Nat) (s : Shape) (kl sl p dl : List Int) (ceil
     max_pool.model k s (.list kl) (.list sl) (.list p) (.list dl) ceil = some out :=
   OV.Lemmas.C08.max_pool_agrees k s kl sl p dl ceil out hk hk3 h1 h2 h3 h4 h
 
-/-- **Function level, `aten_convolution`** (2 or more spatial dims, full-length stride / padding / dilation, plain and
+/-- **Function level, `aten_convolution`** (any number of spatial dims ≥ 1, full-length stride / padding / dilation, plain and
 transposed, groups, output_padding): `Conv` / `ConvTranspose` with `pads = [*padding, *padding]` has PyTorch's
 output shape wherever the spec accepts. -/
 theorem aten_convolution_agrees (s w : Shape) (sl p dl : List Int) (tr : Bool) (op : List Int) (g : Nat) (out : Shape)
-    (hk : 2 ≤ s.length - 2) (h2 : sl.length = s.length - 2) (h3 : p.length = s.length - 2) (h4 : dl.length = s.length - 2)
+    (h2 : sl.length = s.length - 2) (h3 : p.length = s.length - 2) (h4 : dl.length = s.length - 2)
     (h : conv.spec s w (.list sl) (.list p) (.list dl) tr op g = some out) :
     conv.model s w (.list sl) (.list p) (.list dl) tr op g = some out :=
-  OV.Lemmas.C08.conv_agrees s w sl p dl tr op g out hk h2 h3 h4 h
+  OV.Lemmas.C08.conv_agrees s w sl p dl tr op g out h2 h3 h4 h
+
+example : conv.spec [1, 2, 7] [3, 2, 3] (.list [2]) (.list [2]) (.list [1]) false [0] 1 = some [1, 3, 5] := by decide
 
 example : conv.spec [1, 2, 7, 9] [3, 2, 3, 2] (.list [2, 1]) (.list [2, 1]) (.list [1, 2]) false [0, 0] 1 = some [1, 3, 5, 9] := by decide
 
@@ -845,32 +842,31 @@ theorem aten_embedding_agrees (w idx out : Shape) (h : embedding.spec w idx = so
 
 example : embedding.spec [5, 4] [2, 0, 3] = some [2, 0, 3, 4] := by decide
 
-/-- `aten_scatter_src` / `aten_scatter_add` (`ScatterElements`): with `src` of the index's shape (hypothesis — the general case is the finding
-below), rank ≥ 1, wherever `torch.scatter` accepts the arguments the graph is valid and returns self's shape. -/
-theorem aten_scatter_agrees_partial (isAdd : Bool) (s idx : Shape) (dim : Int) (out : Shape)
-    (hr : s.length ≠ 0) (hi : idx.length ≠ 0)
-    (h : scatter.spec s idx idx dim = some out) : scatter.model isAdd s idx idx dim = some out :=
-  OV.Lemmas.C08.scatter_agrees isAdd s idx dim out hr hi h
+/-- `aten_scatter_src` / `aten_scatter_add` (`ScatterElements`, `src` cut to the index shape when larger — fix 33c2a16): for rank ≥ 1 operands,
+wherever `torch.scatter` accepts the arguments (`index.size(d) ≤ src.size(d)`, `index.size(d) ≤ self.size(d)` off the axis) the graph is valid
+and returns self's shape. -/
+theorem aten_scatter_agrees (isAdd : Bool) (s idx src : Shape) (dim : Int) (out : Shape)
+    (hr : s.length ≠ 0) (hi : idx.length ≠ 0) (hs : src.length ≠ 0)
+    (h : scatter.spec s idx src dim = some out) : scatter.model isAdd s idx src dim = some out :=
+  OV.Lemmas.C08.scatter_agrees isAdd s idx src dim out hr hi hs h
 
-example : scatter.spec [3, 5] [2, 7] [2, 7] (-1) = some [3, 5] := by decide
+example : scatter.spec [3, 5] [2, 7] [4, 7] (-1) = some [3, 5] := by decide
 
-/-- FINDING C08-scatter-src-larger: `torch.scatter(x[2], 0, idx[2], src[3])` is defined (`index.size(d) ≤ src.size(d)`); ONNX
-`ScatterElements` needs `updates.shape = indices.shape` and the function passes `src` through. -/
-theorem aten_scatter_src_larger_refuted :
-    scatter.model false [2] [2] [3] 0 = none ∧ scatter.spec [2] [2] [3] 0 = some [2] := by decide
+/-- FIXED 33c2a16 (was C08-scatter-src-larger): `scatter(x[2], 0, idx[2], src[3])`. -/
+theorem aten_scatter_src_larger_fixed :
+    scatter.model false [2] [2] [3] 0 = some [2] ∧ scatter.spec [2] [2] [3] 0 = some [2] := by decide
 
-/-- `aten_pixel_shuffle`: rank 4 → `DepthToSpace`; any other rank ≥ 3 through the collapse / restore `Reshape`s: PyTorch's shape
-`[*, C/r², H·r, W·r]`.  Hypothesis for the `Reshape` path: no zero-size dim (finding below). -/
-theorem aten_pixel_shuffle_agrees_partial (s : Shape) (r : Int) (out : Shape)
-    (hne : s.length = 4 ∨ ∀ x ∈ s, x ≠ 0)
+/-- `aten_pixel_shuffle`: rank 4 → `DepthToSpace`; any other rank ≥ 3 through the two static `Reshape(allowzero=1)`s (fix fcb6f44):
+PyTorch's shape `[*, C/r², H·r, W·r]` wherever PyTorch accepts the input — empty tensors included. -/
+theorem aten_pixel_shuffle_agrees (s : Shape) (r : Int) (out : Shape)
     (h : pixel_shuffle.spec s r = some out) : pixel_shuffle.model s r = some out :=
-  OV.Lemmas.C08.pixel_shuffle_agrees s r out hne h
+  OV.Lemmas.C08.pixel_shuffle_agrees s r out h
 
 example : pixel_shuffle.spec [2, 3, 8, 2, 5] 2 = some [2, 3, 2, 4, 10] := by decide
 
-/-- FINDING C08-pixel-shuffle-empty: `pixel_shuffle(x[0,2,1], 1)` is `[0,2,1]` in PyTorch; `Reshape([-1,0,2,1], allowzero=0)` re-reads the 0. -/
-theorem aten_pixel_shuffle_empty_refuted :
-    pixel_shuffle.model [0, 2, 1] 1 = none ∧ pixel_shuffle.spec [0, 2, 1] 1 = some [0, 2, 1] := by decide
+/-- FIXED fcb6f44 (was C08-pixel-shuffle-empty): `pixel_shuffle(x[0,2,1], 1)` is `[0,2,1]`. -/
+theorem aten_pixel_shuffle_empty_fixed :
+    pixel_shuffle.model [0, 2, 1] 1 = some [0, 2, 1] ∧ pixel_shuffle.spec [0, 2, 1] 1 = some [0, 2, 1] := by decide
 
 /-- `aten_pixel_unshuffle` (`Reshape → Reshape[-1,C,H/r,r,W/r,r] → Transpose[0,1,3,5,2,4] → Reshape[-1,C·r²,H/r,W/r] → Reshape`):
 PyTorch's shape `[*, C·r², H/r, W/r]` for every rank ≥ 3 and every `r` dividing H and W, on non-empty tensors. -/
@@ -880,5 +876,48 @@ theorem aten_pixel_unshuffle_agrees_partial (s : Shape) (r : Int) (out : Shape)
   OV.Lemmas.C08.pixel_unshuffle_agrees s r out hnz h
 
 example : pixel_unshuffle.spec [2, 3, 4, 6] 2 = some [2, 12, 2, 3] := by decide
+
+/-- `aten_conv1d` / `aten_conv2d` / `aten_conv3d` (full-length lists, groups, optional bias): `Conv` with `pads = [*padding, *padding]`
+and — for `bias=None` — the generated `[O]` zero bias has PyTorch's output shape. -/
+theorem aten_convnd_agrees (s w : Shape) (hasBias : Bool) (st pad dil : List Int) (groups : Nat) (out : Shape)
+    (h2 : st.length = s.length - 2) (h3 : pad.length = s.length - 2) (h4 : dil.length = s.length - 2)
+    (h : convnd.spec s w st pad dil groups = some out) : convnd.model s w hasBias st pad dil groups = some out :=
+  OV.Lemmas.C08.convnd_agrees s w hasBias st pad dil groups out h2 h3 h4 h
+
+example : convnd.spec [1, 2, 7, 9] [3, 2, 3, 2] [2, 1] [2, 1] [1, 2] 1 = some [1, 3, 5, 9] := by decide
+
+/-- FIXED 0fc3090 (was C08-conv3d-no-bias): `aten_conv3d(x, w)` without bias (the zero bias was `[O, 2]`). -/
+theorem aten_conv3d_no_bias_fixed :
+    convnd.model [1, 1, 3, 3, 3] [1, 1, 2, 2, 2] false [1, 1, 1] [0, 0, 0] [1, 1, 1] 1 = some [1, 1, 2, 2, 2]
+    ∧ convnd.spec [1, 1, 3, 3, 3] [1, 1, 2, 2, 2] [1, 1, 1] [0, 0, 0] [1, 1, 1] 1 = some [1, 1, 2, 2, 2] := by decide
+
+/-- `aten_softmax` / `aten__softmax` / `aten__log_softmax`: the `dim` accepted by the graph (rank 0 goes through `Unsqueeze([0])`, so
+`dim ∈ {0, -1}`) is exactly the `dim` PyTorch accepts, and the shape is unchanged — every rank. -/
+theorem aten_softmax_dim_agrees (s : Shape) (dim : Int) : softmax.model s dim = softmax.spec s dim :=
+  OV.Lemmas.C08.softmax_agrees s dim
+
+example : softmax.spec [] (-1) = some [] ∧ softmax.spec [2, 3] 2 = none := by decide
+
+/-- `aten_linear`, all three trace-time branches (`Gemm(transB=1)` for 2-D·2-D, `Squeeze(MatMul(x, Unsqueeze(w,[1])),[-1])` for a 1-D
+weight, `MatMul(x, Transpose(w)) (+ bias)` otherwise): `torch.nn.functional.linear`'s shape `[*, out]` (resp. `[*]`) for every input
+rank ≥ 1, wherever PyTorch accepts the operands. -/
+theorem aten_linear_agrees (x w : Shape) (bias : Option Shape) (out : Shape)
+    (h : linear.spec x w bias = some out) : linear.model x w bias = some out :=
+  OV.Lemmas.C08.linear_agrees x w bias out h
+
+example : linear.spec [5, 2, 3] [4, 3] (some [4]) = some [5, 2, 4] ∧ linear.spec [2, 3] [4, 3] none = some [2, 4]
+    ∧ linear.spec [5, 3] [3] none = some [5] := by decide
+
+/-- `aten_linalg_vector_norm` (every `ord` branch reduces with the same axes / keepdims): PyTorch's shape wherever defined — an explicit
+dim list (computed axes, rank 0 included) or `dim=None`, both `keepdim` (fix 7d29f42). -/
+theorem aten_vector_norm_agrees (s : Shape) (dims : Option (List Int)) (keep : Bool) (out : Shape)
+    (h : vector_norm.spec s dims keep = some out) : vector_norm.model s dims keep = some out :=
+  OV.Lemmas.C08.vector_norm_agrees s dims keep out h
+
+example : vector_norm.spec [2, 3, 4] (some [0, -1]) true = some [1, 3, 1] ∧ vector_norm.spec [2, 3] none false = some [] := by decide
+
+/-- FIXED 7d29f42 (was C08-vector-norm-keepdim-no-dim): `vector_norm(x[2,3], 2, None, keepdim=True)` is `[1,1]`. -/
+theorem aten_vector_norm_keepdim_no_dim_fixed :
+    vector_norm.model [2, 3] none true = some [1, 1] ∧ vector_norm.spec [2, 3] none true = some [1, 1] := by decide
 
 end OV.Props.C08
